@@ -20,3 +20,14 @@ Definition henry_run : bool :=
   match iast_point QNum q_root_half [q_henry 2; q_henry 1] [1%Q; 2%Q] None with
   | Ok [a; b] => Qeq_bool a 2 && Qeq_bool b 2
   | _ => false end.
+(* reverse then forward on the same Henry mixture: x = (1/2, 1/2) at P = 3 gives y = (1/3, 2/3), n = (2, 2); iast_point at P*y gives n again *)
+Definition q_root_third (f : list Q -> list Q) (x0 : list Q) : bool * list Q :=
+  let x := map (fun _ => 1 # 3)%Q x0 in (forallb (fun d => Qeq_bool d 0) (f x), x).
+Definition Qlist_eqb (a b : list Q) : bool := Nat.eqb (List.length a) (List.length b) && forallb (fun ab => Qeq_bool (fst ab) (snd ab)) (combine a b).
+Definition reverse_forward_run : bool :=
+  match reverse_iast QNum q_root_third [q_henry 2; q_henry 1] [1 # 2; 1 # 2]%Q 3%Q None with
+  | Ok (yf, ns) =>
+      match iast_point QNum q_root_half [q_henry 2; q_henry 1] (map (fun y => 3 * y)%Q yf) None with
+      | Ok ns' => Qlist_eqb ns' ns && Qlist_eqb ns [2; 2]%Q && Qlist_eqb yf [1 # 3; 2 # 3]%Q
+      | Err _ => false end
+  | Err _ => false end.
